@@ -407,6 +407,8 @@ def probe_inputs(d, seed=1, per_path=6, max_total=900):
     rng = random.Random(seed)
     arity = d["arity"]
     probes, seen = [], set()
+    t_start = time.time()
+    budget = 20.0          # seconds of probe generation per explored function
 
     def push(xs, why):
         key = tuple(xs)
@@ -425,6 +427,8 @@ def probe_inputs(d, seed=1, per_path=6, max_total=900):
             xs[k_] = v_
         return xs
     for pi, p in enumerate(d["paths"]):
+        if time.time() - t_start > budget:
+            break
         nodes, conds = p["nodes"], p["conds"]
         # (A) rejection sampling of points on the path
         got = 0
@@ -486,7 +490,7 @@ def probe_inputs(d, seed=1, per_path=6, max_total=900):
                     push(xs, "path %d (conditions solved in sequence)" % pi)
         # (D) scale probes: a contiguous block of inputs (one vector / point / column argument) made very small, very large
         #     or zero, the rest generic — reaches tests of the form "is this derived vector negligible"
-        if pi == 0:
+        if pi == 0 and arity <= 24:
             for size in (1, 2, 3, 4):
                 for off in range(0, max(arity - size + 1, 0)):
                     for fct in (Fraction(1, 2 ** 30), Fraction(1, 2 ** 70), Fraction(2 ** 30), Fraction(0)):
@@ -498,6 +502,8 @@ def probe_inputs(d, seed=1, per_path=6, max_total=900):
                         push(xs, "inputs %d..%d scaled by %s" % (off, off + size - 1, fct))
         # (B) boundary of each comparison, other comparisons of the path respected where possible
         for ci, c in enumerate(conds):
+            if time.time() - t_start > budget:
+                break
             if c["op"] not in ("eqb", "ltb", "leb", "abs_diff_eq", "ulps_eq", "relative_eq"):
                 continue
             a, b = c["args"][0], c["args"][1]
